@@ -43,7 +43,7 @@ MIN_NONTRIVIAL = {'quick': 15000, 'thorough': 25000}
 EXHAUSTIVE = {'quick': False, 'thorough': True}
 REQUIRED = ('hands_enumerated', 'classes_tabled', 'operator_pairs',
             'rejections_checked', 'equal_rank_pairs', 'accepted', 'refused',
-            'argument_forms_checked')
+            'argument_forms_checked', 'container_mutations_checked')
 
 DECKS = {
     'standard': Deck.STANDARD, 'shortdeck': Deck.SHORT_DECK_HOLDEM,
@@ -314,6 +314,12 @@ def run_shard(seed, shard, of, tier, deadline):
                         f'({b!r}, index {b.entry.index}) than the tuple '
                         f'form (index {a.entry.index})',
                         {'cls': clsname, 'cards': t, 'form': kind_})
+        # a hand is a value: built from a mutable container, it must not
+        # follow what the caller does to that container afterwards (deal
+        # buffers are refilled, cards popped)
+        pool = rng.sample(keep, min(len(keep), 120))
+        for (a, ka), (c, kc) in zip(pool, pool[1:] + pool[:1]):
+            check_detached(res, clsname, cls, a, c)
         # rejection tier
         if shard == 0 or tier == 'thorough':
             for why, cards in rejection_inputs(kind, rng):
@@ -339,13 +345,63 @@ def run_shard(seed, shard, of, tier, deadline):
     return res
 
 
+def check_detached(res, clsname, cls, a, c):
+    from collections import deque
+    t = text_of(a.cards)
+    for kind_, make in (('list', list), ('deque', deque)):
+        buf = make(a.cards)
+        try:
+            b = cls(buf)
+            before = (hash(b), b.entry.index, repr(b), tuple(b.cards))
+            buf.clear()
+            buf.extend(c.cards)      # the buffer now holds another hand
+            buf.reverse()
+            after = (hash(b), b.entry.index, repr(b), tuple(b.cards))
+            same = b == a
+        except Exception as exc:   # noqa: BLE001
+            res.violation(
+                f'{clsname}({kind_} of {t}), container refilled with '
+                f'{text_of(c.cards)} afterwards: {type(exc).__name__}: {exc}',
+                {'cls': clsname, 'cards': t, 'cards2': text_of(c.cards),
+                 'kind': 'detached'})
+            return
+        res.counters['container_mutations_checked'] += 1
+        if before != after or not same:
+            res.violation(
+                f'{clsname}({kind_} of {t}) changed when the caller refilled '
+                f'the {kind_} it was built from with {text_of(c.cards)}: '
+                f'{before[2]} (index {before[1]}) became {after[2]} (index '
+                f'{after[1]}); a hand is documented as immutable',
+                {'cls': clsname, 'cards': t, 'cards2': text_of(c.cards),
+                 'kind': 'detached'})
+            return
+
+
 def replay(payload):
     clsname = payload['cls']
     kind, low, rule = hr.CLASSES[clsname]
     cls = getattr(pk_hands, clsname)
     res = Shard()
     table = build_table(res, clsname, cls, kind)
-    if payload['kind'] == 'enum':
+    if payload.get('kind') == 'detached':
+        check_detached(res, clsname, cls, cls(payload['cards']),
+                       cls(payload['cards2']))
+    elif 'form' in payload:
+        t = payload['cards']
+        a = cls(cards_of(t))
+        forms = {'text': t, 'text-10': t.replace('T', '10'),
+                 'text-spaced': ' '.join(repr(c) for c in a.cards),
+                 'list': list(a.cards), 'iterator': iter(a.cards),
+                 'generator': (c for c in a.cards), 'parse': Card.parse(t)}
+        try:
+            b = cls(forms[payload['form']])
+            if not (b == a) or b.entry.index != a.entry.index:
+                res.violation(f'{clsname}({payload["form"]} of {t}) is a '
+                              f'different hand', payload)
+        except Exception as exc:   # noqa: BLE001
+            res.violation(f'{clsname}({payload["form"]} of {t}) raised '
+                          f'{type(exc).__name__}: {exc}', payload)
+    elif payload['kind'] == 'enum':
         check_hand(res, clsname, cls, kind, table,
                    cards_of(payload['cards']), None)
     elif payload['kind'] == 'pair':
